@@ -207,6 +207,10 @@ fn make_block(prev: Option<&BlockEntry>, txs: Vec<Transaction>, tag: u32) -> Blo
     }
 }
 
+pub fn make_block_pub(prev: Option<&BlockEntry>, txs: Vec<Transaction>, tag: u32) -> BlockEntry {
+    make_block(prev, txs, tag)
+}
+
 fn base_chain() -> &'static Vec<BlockEntry> {
     static BASE: OnceLock<Vec<BlockEntry>> = OnceLock::new();
     BASE.get_or_init(|| {
